@@ -826,3 +826,117 @@ func checkEndsWithReturn(p *Prog, r *Report) {
 	}
 	r.Check("R02e", "stmtsEndWithReturn is true only for return/branch or an if whose both branches end so", ser.Pos(), bad == "" && nTrue > 0, bad)
 }
+
+// ---------------------------------------------------------------------------
+// R02f multi-result agreement
+
+// checkR02f: a binding of several names destructures a tuple, so its right-hand side has to be
+// translated in the mode that produces a tuple (v, ok := m[k] is a pair only when asked for one).
+// Wherever the translator builds a coq.Binding whose Names are not a single fixed name, the bound
+// expression must come from the mode-aware translation — the method of Ctx of type
+// func(ast.Expr, bool) coq.Expr — called with the flag len(<names' source>) == 2, unless the facts at
+// the construction bound the number of names by one. Sibling constructions (define, assign) thereby agree.
+func checkR02f(p *Prog, r *Report) {
+	var modeAware *ssa.Function
+	for _, g := range p.FuncsIn(Mod) {
+		sig := g.Signature
+		if sig.Recv() == nil || sig.Params().Len() != 2 || sig.Results().Len() != 1 {
+			continue
+		}
+		if types.TypeString(sig.Params().At(0).Type(), nil) == "go/ast.Expr" && types.TypeString(sig.Params().At(1).Type(), nil) == "bool" &&
+			strings.HasSuffix(types.TypeString(sig.Results().At(0).Type(), nil), "coq.Expr") {
+			modeAware = g
+		}
+	}
+	if modeAware == nil {
+		r.Anchor("R02f", "the mode-aware expression translation func(ast.Expr, bool) coq.Expr")
+		return
+	}
+	r.Func(FuncName(modeAware))
+	n := 0
+	for _, f := range p.FuncsIn(Mod) {
+		rm := p.Rels(f)
+		// bindings built in f: alloc -> stores of Names / Expr
+		type parts struct{ names, expr *ssa.Store }
+		bs := map[ssa.Value]*parts{}
+		var order []ssa.Value
+		p.instrs(f, func(b *ssa.BasicBlock, i int, in ssa.Instruction) {
+			st, ok := in.(*ssa.Store)
+			if !ok {
+				return
+			}
+			fa, ok := st.Addr.(*ssa.FieldAddr)
+			if !ok {
+				return
+			}
+			o, fld, okf := fieldOf(fa)
+			if !okf || o.Obj().Name() != "Binding" || o.Obj().Pkg().Path() != coqPkg {
+				return
+			}
+			if bs[fa.X] == nil {
+				bs[fa.X] = &parts{}
+				order = append(order, fa.X)
+			}
+			switch fld {
+			case "Names":
+				bs[fa.X].names = st
+			case "Expr":
+				bs[fa.X].expr = st
+			}
+		})
+		for _, a := range order {
+			pt := bs[a]
+			if pt.names == nil || pt.expr == nil {
+				continue
+			}
+			// a single fixed name or no name: a slice literal of at most one element, or make([]string, 0)
+			single := false
+			switch x := pt.names.Val.(type) {
+			case *ssa.Slice:
+				if al, ok := x.X.(*ssa.Alloc); ok {
+					if at, ok := deref(al.Type()).Underlying().(*types.Array); ok && at.Len() <= 1 {
+						single = true
+					}
+				}
+			case *ssa.MakeSlice:
+				if c, ok := constInt(x.Len); ok && c <= 1 {
+					single = true
+				}
+			case *ssa.Const:
+				single = true
+			}
+			if single {
+				continue
+			}
+			rs := p.RelsAt(rm, pt.expr)
+			bounded := false
+			for k := range rs {
+				if strings.HasPrefix(k, "1 == len(") || strings.HasPrefix(k, "0 == len(") {
+					bounded = true
+				}
+			}
+			if bounded {
+				continue
+			}
+			n++
+			v := pt.expr.Val
+			if mi, ok := v.(*ssa.MakeInterface); ok {
+				v = mi.X
+			}
+			okMode, why := false, "the bound expression is "+sk(v)+", not the result of "+modeAware.Name()+"(…, len(…) == 2)"
+			if c, ok := v.(*ssa.Call); ok && calleeOf(&c.Call) == modeAware {
+				flag := c.Call.Args[len(c.Call.Args)-1]
+				fk := sk(flag)
+				if strings.HasPrefix(fk, "(2 == len(") || strings.HasPrefix(fk, "(len(") && strings.HasSuffix(fk, " == 2)") {
+					okMode, why = true, ""
+				} else {
+					why = "the tuple-mode flag is " + fk + ", not len(<names' source>) == 2"
+				}
+			}
+			r.Check("R02f", fmt.Sprintf("%s binds several names to a tuple-mode translation", f.Name()), instrPos(pt.expr), okMode, why)
+		}
+	}
+	if n == 0 {
+		r.Unknown("R02f", "multi-name bindings", token.NoPos, "no construction of a binding with several names found")
+	}
+}
